@@ -101,7 +101,7 @@ class SelfDependencyEliminator(ASTStatementRewriter):
         from pymbolic import var
 
         from dagrt.language import Assign
-        for var_name in read_and_written:
+        for var_name in sorted(read_and_written):
             tmp_var_name = self.var_name_gen(
                     "temp_"
                     + var_name.replace("<", "_").replace(">", "_"))
